@@ -158,14 +158,23 @@ func cluster3Scenario(out *Out, r *rand.Rand, sc int) {
 	g := newFsmGen(r)
 	m := len(g.keys)
 	var lastAcked uint64
+	// the view a node reports from lives in its process: a restarted node starts a new one (epoch)
 	terms := map[uint64]uint64{}
+	epoch := map[uint64]int{}
+	termEpoch := map[uint64]int{}
 	termsOK := true
 	seeTerm := func(node uint64, h *regattapb.ResponseHeader) {
 		if h == nil {
 			return
 		}
-		if h.RaftTerm < terms[node] {
+		if termEpoch[node] != epoch[node] {
+			if h.RaftTerm < terms[node] {
+				out.Count("term_lower_after_restart")
+			}
+			termEpoch[node] = epoch[node]
+		} else if h.RaftTerm < terms[node] {
 			termsOK = false
+			out.Count(fmt.Sprintf("term_regressed_node%d_%d_to_%d", node, terms[node], h.RaftTerm))
 		}
 		terms[node] = h.RaftTerm
 	}
@@ -318,6 +327,7 @@ func cluster3Scenario(out *Out, r *rand.Rand, sc int) {
 					sample()
 				}
 			}
+			epoch[victim.id]++
 			if err := victim.start(); err != nil {
 				out.Count("abandon_restart_" + strings.ReplaceAll(fmt.Sprint(err), " ", "_")[:40])
 				panic("abandon")
